@@ -94,6 +94,21 @@ def observe_misuse(ic: Any, cell: dict) -> Tuple[str, str]:
                 ns["REENTER"] = lambda: (ns["CALLIT"](), True)[1]
                 cond = "lambda: REENTER()" if d == "require" else "lambda result: REENTER()"
                 deco_expr = "icontract.{}({})".format(d, cond)
+            elif m in ("param_ARGS_inherited", "param_KWARGS_inherited"):
+                # Base.t carries the contract; Derived overrides t WITHOUT a decorator and declares the reserved name
+                reserved = "_ARGS" if m == "param_ARGS_inherited" else "_KWARGS"
+                deco = create(deco_expr)
+                moment[0] = "decorate"
+                ns["DECO"] = deco
+                head = {"method": "", "async_method": "", "static": "@staticmethod\n    ", "classm": "@classmethod\n    "}[c]
+                first = {"method": "self, ", "async_method": "self, ", "static": "", "classm": "cls, "}[c]
+                adef = "async def" if c == "async_method" else "def"
+                src = ("class Base(icontract.DBC):\n    {H}@DECO\n    {A} t({F}x=1):\n        return 1\n"
+                       "class Derived(Base):\n    {H}{A} t({F}x=1, {R}=2):\n        return 1\n").format(
+                    H=head, A=adef, F=first, R=reserved)
+                exec(src, ns)
+                moment[0] = "call"
+                return ("never", "")
             elif m == "param_result":
                 params = "result=1"
             elif m == "param_OLD":
@@ -133,6 +148,12 @@ def observe_misuse(ic: Any, cell: dict) -> Tuple[str, str]:
             elif m == "inv_coroutine":
                 ns["acond"] = _make_async_cond()
                 expr = "icontract.invariant(acond)"
+            elif m == "inv_coroutine_error_class":
+                ns["acond"] = _make_async_cond()
+                expr = "icontract.invariant(acond, error=ValueError)"
+            elif m == "inv_coroutine_error_factory":
+                ns["acond"] = _make_async_cond()
+                expr = "icontract.invariant(acond, error=lambda self: ValueError('x'))"
             else:
                 err = ERROR_EXPRS[m]
                 expr = "icontract.invariant(lambda self: True, error={})".format(err)
@@ -438,6 +459,109 @@ def check_meta(res: CheckResult, ic: Any) -> None:
     res.traces += n
     res.evaluations += n
     res.add_unit("metadata: attribute x callable kind x way of contracting", cells=n)
+
+
+def _call_shape(ic: Any, shape: str, how: str, contracted: bool) -> Any:
+    """Build the (bare / contracted) classes of a call-shape cell, perform the call, return what was observed."""
+    log = []  # type: List[Any]
+
+    def contract_class(cls: Any) -> Any:
+        if contracted and how in ("invariant", "dbc_invariant"):
+            return ic.invariant(lambda self: True)(cls)
+        return cls
+
+    def contract_method(f: Any) -> Any:
+        if contracted and how == "dbc_require":
+            return ic.require(lambda: True)(f)
+        return f
+
+    root = (ic.DBC,) if (contracted and how in ("dbc_invariant", "dbc_require")) else (object,)
+
+    def mk(name: str, bases: Tuple[Any, ...], nsp: Dict[str, Any], **kw: Any) -> Any:
+        return type(bases[0])(name, bases, dict(nsp, __module__="icv_calls"), **kw)
+
+    marker = object()
+    if shape == "self_by_keyword":
+        def m(self: Any, x: int = 1) -> Any:
+            log.append(("m", type(self).__name__, x))
+            return x + 1
+        K = contract_class(mk("K", root, {"m": contract_method(m)}))
+        inst = K()
+        return ("ret", K.m(self=inst, x=5), log)
+    if shape == "posonly_self_kw_named_self":
+        def update(self: Any, /, **fields: Any) -> Any:
+            log.append(("update", type(self).__name__, sorted(fields), fields.get("self") is marker))
+            return len(fields)
+        K = contract_class(mk("K", root, {"update": contract_method(update)}))
+        return ("ret", K().update(self=marker, a=1), log)
+    if shape == "init_posonly_self_kw":
+        def __init__(self: Any, /, **fields: Any) -> None:
+            log.append(("init", type(self).__name__, sorted(fields), fields.get("self") is marker))
+        K = contract_class(mk("K", root, {"__init__": contract_method(__init__)}))
+        K(self=marker, a=1)
+        return ("ret", None, log)
+    if shape in ("class_keywords", "class_keywords_grandchild"):
+        def __init_subclass__(cls: Any, tag: str = "none", **kw: Any) -> None:
+            super(Base, cls).__init_subclass__(**kw)
+            cls.tag = tag
+            log.append(("subclass", cls.__name__, tag))
+
+        def m(self: Any) -> Any:
+            return type(self).tag
+        Base = contract_class(mk("Base", root, {"__init_subclass__": classmethod(__init_subclass__), "m": contract_method(m),
+                                               "tag": "base"}))
+        T = mk("T", (Base,), {}, tag="tagged")
+        if shape == "class_keywords_grandchild":
+            T = mk("G", (T,), {}, tag="grand")
+        return ("ret", T().m(), log)
+    if shape in ("builtin_list_base", "builtin_dict_base"):
+        base = list if shape == "builtin_list_base" else dict
+        seen = []  # type: List[int]
+
+        def inv(self: Any) -> bool:
+            seen.append(len(self))
+            return len(self) > 0
+        cls = type("Batch", (base,), {"__module__": "icv_calls", "size": lambda self: len(self)})
+        if contracted:
+            cls = ic.invariant(inv)(cls)
+        arg = [3, 1, 2] if base is list else {"a": 1, "b": 2, "c": 3}
+        inst = cls(arg)
+        out = inst.size()
+        # with invariants: evaluated only on the fully built object (never on the still empty one)
+        return ("ret", out, [("built", len(inst))] + ([("never-on-unbuilt", all(n == 3 for n in seen))] if contracted else
+                                                      [("never-on-unbuilt", True)]))
+    raise ValueError(shape)
+
+
+def check_calls(res: CheckResult, ic: Any, only: Any = None) -> None:
+    """C14: unusual call / class-statement shapes on a class with contracts behave as on the bare class."""
+    r, cells = table_cells("calls")
+    if not r.ok:
+        raise MachineryError("ICTables/calls: {}".format(r.violated or r.error))
+    res.states += r.distinct
+    res.transitions += r.states
+    n = 0
+    for ex in cells:
+        cell = ex["cell"]
+        if only is not None and not only(cell):
+            continue
+        obs = []
+        for contracted in (False, True):
+            try:
+                obs.append(_call_shape(ic, cell["shape"], cell["how"], contracted))
+            except Exception as exc:  # noqa
+                obs.append(("exc", type(exc).__name__, str(exc)[:120]))
+        n += 1
+        if obs[0][0] == "exc":
+            raise MachineryError("call-shape cell {} fails on the bare class: {}".format(cell, obs[0]))
+        if obs[0] != obs[1]:
+            res.violation("def.call_shape_differs",
+                          "call shape {} on a class contracted by {}: bare {!r}, contracted {!r}".format(
+                              cell["shape"], cell["how"], obs[0], obs[1]),
+                          {"signature": "def.call_shape_differs", "cell": cell, "bare": repr(obs[0]), "contracted": repr(obs[1])})
+    res.traces += n
+    res.evaluations += n
+    res.add_unit("call and class-statement shapes x way of contracting", cells=n)
 
 
 # ------------------------------------------------------------------------------------------------------ C15
